@@ -82,6 +82,17 @@ def main():
     known, _fixed = common.load_known_findings()
     known_sigs = {(k["property"], k["signature"]): k for k in known}
     new, listed = [], {}
+    # formulas of the specification that describe behaviour beyond what the property states (exact
+    # heuristics, neighbourhood shape): a mismatch is reported, but it is not a violation of the property
+    deviations = [f for f in out.findings if f.formula in props.CONFORMANCE_ONLY]
+    out.findings = [f for f in out.findings if f.formula not in props.CONFORMANCE_ONLY]
+    dev_seen = {}
+    for f in deviations:
+        dev_seen.setdefault(f.formula, []).append(f)
+    for formula, fs in dev_seen.items():
+        print("SPEC-DEVIATION property=%s formula=%s occurrences=%d e.g. case=%s %s (the implementation differs from the "
+              "specification in behaviour the property does not constrain; not a violation)" % (
+                  prop, formula, len(fs), fs[0].case, fs[0].detail[:160]))
     for f in out.findings:
         k = known_sigs.get((f.prop, f.signature))
         if k is not None:
@@ -114,6 +125,7 @@ def main():
             "samples": out.samples[:6] or ["(none)"],
             "tlc_runs": out.tlc_runs,
             "known_findings_hit": sorted(listed.keys()),
+            "spec_deviations_beyond_property": {k: len(v) for k, v in dev_seen.items()},
         })
         common.write_evidence(prop, args.tier, seed, cov, wall, len(seen), out.assumptions)
     log("[check] %s tier=%s wall=%.1fs states=%d traces=%d new_violations=%d known=%d" % (
